@@ -32,18 +32,25 @@ func (emptyDepacketizer) Depacketize(p *Packet) error { return nil }
 
 type depacketizer struct {
 	syncClock SyncClock
+	baseFixed bool // RTP 时间基准已确定（第一个 SR 或第一个媒体包），此后不再移动，保证显示时间连续
 }
 
 func (dp *depacketizer) Control(p *Packet) error {
-	if dp.syncClock.RTPTime == 0 {
+	if !dp.baseFixed {
 		if ok := dp.syncClock.Decode(p.Data); ok {
-
+			dp.baseFixed = true
 		}
 	}
 	return nil
 }
 
 func (dp *depacketizer) rtp2ntp(timestamp uint32) int64 {
+	if !dp.baseFixed {
+		// 媒体先于 SR 到达：以第一个包的时间戳为基准；之后到达的 SR 不能再改变基准，
+		// 否则其前后两帧的显示时间差不再等于 RTP 时间戳之差
+		dp.syncClock.RTPTime = timestamp
+		dp.baseFixed = true
+	}
 	return dp.syncClock.RelativeNtp(timestamp)
 }
 
